@@ -683,3 +683,92 @@ Example C19_example_relay_timeout :
   closed_between (ch_conns tmo_chan)
     (ch_conns (rc_chan (rsweep 100 (link (state_after tmo_labels) tmo_chan)))) = [0; 1].
 Proof. vm_compute. repeat split. Qed.
+
+(* ==== sixth part: calls that are NOT relayed, on every kind of connection ========================
+   A connection of a relaying channel (c.relay != nil, k_relay = Some n) can carry, besides relayed
+   calls, calls the relay channel HANDLES ITSELF (ChannelOptions.RelayLocalHandlers ->
+   Relayer.handleLocalCallReq -> handleFrameNoRelay: an inbound exchange) and calls the relay channel
+   ORIGINATES (Channel.BeginCall over one of its connections: an outbound exchange).  Neither touches
+   Relayer.pending.  The only-if direction of the statement ("closed ... only if it has no pending
+   calls") for them: Spec/C19LocalSpec.v reads the calls in flight off the history (the spec does not
+   know whether the channel relays), Proofs/C19LocalP.v. *)
+From Verif Require Import Spec.C19LocalSpec Proofs.C19LocalP.
+
+(* Connection.hasPendingCalls as regenerated from the source is the disjunction of its three sources
+   -- inbound calls, outbound calls, not Relayer.canClose -- and nothing else: whatever canClose was
+   computed from (nil relayer or not, any value of the counter), a call in either exchange set makes
+   it true; it is false only if both sets have no call and canClose holds. *)
+Theorem C19_gen_pending_sources :
+  (forall inb outb cc, hasPendingCalls inb outb cc = (inb >? 0) || (outb >? 0) || negb cc) /\
+  (forall isNil pending inb outb, 0 < inb \/ 0 < outb ->
+     hasPendingCalls inb outb (relayCanClose isNil pending) = true) /\
+  (forall inb outb cc, hasPendingCalls inb outb cc = false <-> inb <= 0 /\ outb <= 0 /\ cc = true).
+Proof. exact c19l_gen_pending_sources. Qed.
+Print Assumptions C19_gen_pending_sources.
+
+(* One sweep, from ANY channel state (distinct connection ids): a connection with a call in its
+   inbound or outbound exchange set is left exactly as it is -- whatever its k_relay (no relayer, a
+   relayer with counter 0, any counter), its stamps and its state; and whatever the sweep closes had
+   no call in either set. *)
+Theorem C19_sweep_keeps_busy : forall mi s id c,
+  NoDup (map fst (ch_conns s)) -> Idle.lookup id (ch_conns s) = Some c ->
+  (0 < k_inb c \/ 0 < k_outb c -> Idle.lookup id (ch_conns (sweep mi s)) = Some c) /\
+  (forall c', Idle.lookup id (ch_conns (sweep mi s)) = Some c' -> is_active c = true -> is_active c' = false ->
+     k_inb c <= 0 /\ k_outb c <= 0).
+Proof. exact c19l_sweep_keeps_busy. Qed.
+Print Assumptions C19_sweep_keeps_busy.
+
+(* Over histories: after every history h (all interleavings of the events, any clock, sweep enabled
+   or not) the exchange counts of connection id are the calls in flight of the history
+   (calls_in_flight, Spec/C19LocalSpec.v: w = 0 calls the channel handles itself, w = 1 calls it
+   originated) ... *)
+Theorem C19_calls_in_flight : forall cf t0 h id,
+  option_map k_inb (Idle.lookup id (ch_conns (IdleHealthSys.run cf t0 h))) = calls_in_flight id 0 None h /\
+  option_map k_outb (Idle.lookup id (ch_conns (IdleHealthSys.run cf t0 h))) = calls_in_flight id 1 None h.
+Proof. exact c19l_calls_in_flight_both. Qed.
+Print Assumptions C19_calls_in_flight.
+
+(* ... so a connection -- of a relaying channel or not, idle for however long, whatever its relay
+   counter -- on which a call the channel handles itself or a call the channel originated is in
+   flight is NOT closed by the tick: it is left exactly as it is. *)
+Theorem C19_nonrelayed_call_kept : forall cf t0 h id c,
+  Idle.lookup id (ch_conns (IdleHealthSys.run cf t0 h)) = Some c -> nonrelayed_call_in_flight id h ->
+  Idle.lookup id (ch_conns (IdleHealthSys.step cf (IdleHealthSys.run cf t0 h) ETick)) = Some c /\
+  ~ In id (closed_between (ch_conns (IdleHealthSys.run cf t0 h)) (ch_conns (IdleHealthSys.step cf (IdleHealthSys.run cf t0 h) ETick))).
+Proof. exact c19l_nonrelayed_call_kept. Qed.
+Print Assumptions C19_nonrelayed_call_kept.
+
+(* The same over the combined relay / sweep state of Model/IdleRelay.v, with NO hypothesis on the
+   relay bookkeeping (it may have no live item and no held unit for the connection, the counter may
+   be 0, canClose may hold): the sweep leaves a connection with a call in its exchange sets as it
+   is, and hasPendingCalls computed from the generated functions is true. *)
+Theorem C19_relay_busy_kept : forall rc mi id c,
+  NoDup (map fst (ch_conns (rc_chan rc))) -> Idle.lookup id (ch_conns (rc_chan rc)) = Some c ->
+  0 < k_inb c \/ 0 < k_outb c ->
+  Idle.lookup id (ch_conns (rc_chan (rsweep mi rc))) = Some c /\
+  relay_has_pending (rc_relay rc) id c = true.
+Proof. exact c19l_relay_busy_kept. Qed.
+Print Assumptions C19_relay_busy_kept.
+
+(* non-vacuity: a connection of a relaying channel (ex_cf: MaxIdleTime 180).  A call the relay
+   handles itself starts at t=0; a relayed call comes and goes (the relay counter is back at 0);
+   at t=500 the tick closes nothing although canClose holds and the connection was silent for 500;
+   the handler answers, 200 later the tick closes the connection.  Second connection: a call the
+   relay channel originated is pending at t=500: not closed. *)
+Example C19_example_relay_local_call :
+  let h := [ENewConn 0 true; ENewConn 1 true; ERead 0 3; EPend 0 0 1;
+            ERead 0 3; EPend 0 2 1; EWrite 0 4; EPend 0 2 (-1);
+            EPend 1 1 1; EWrite 1 3; EAdvance 500] in
+  nonrelayed_call_in_flight 0 h /\ nonrelayed_call_in_flight 1 h /\
+  option_map k_relay (Idle.lookup 0 (ch_conns (IdleHealthSys.run ex_cf 0 h))) = Some (Some 0) /\
+  closed_between (ch_conns (IdleHealthSys.run ex_cf 0 h)) (ch_conns (IdleHealthSys.step ex_cf (IdleHealthSys.run ex_cf 0 h) ETick)) = [] /\
+  let h2 := h ++ [ETick; EWrite 0 4; EPend 0 0 (-1); EAdvance 200] in
+  ~ nonrelayed_call_in_flight 0 h2 /\
+  closed_between (ch_conns (IdleHealthSys.run ex_cf 0 h2)) (ch_conns (IdleHealthSys.step ex_cf (IdleHealthSys.run ex_cf 0 h2) ETick)) = [0].
+Proof.
+  cbv zeta. split; [exists 0, 1; vm_compute; repeat split; auto|].
+  split; [exists 1, 1; vm_compute; repeat split; auto|].
+  split; [vm_compute; reflexivity|]. split; [vm_compute; reflexivity|].
+  split; [|vm_compute; reflexivity].
+  intros (w & n & [-> | ->] & Hn & Hpos); vm_compute in Hn; injection Hn as <-; exact (Z.lt_irrefl _ Hpos).
+Qed.
